@@ -1105,7 +1105,7 @@ def set_common_charges(sites, new_charges='same', new_names=None, new_mod=None, 
             perm_flat = leg_unsorted.perm_flat_from_perm_qind(perm_qind)
             perms.append(perm_flat)
         else:
-            perm_flat = None
+            leg, perm_flat = leg_unsorted, None
         site.change_charge(leg, perm_flat)
         if new_charge_to_JW_parity is not None:
             site.charge_to_JW_parity = new_charge_to_JW_parity
